@@ -435,6 +435,9 @@ def _is_props_expr(e: ast.expr, o: Origins) -> bool:
         if e.id == o.self_name and o.in_props_class:
             return True
         for n in ast.walk(o.fn):
+            if isinstance(n, ast.NamedExpr) and isinstance(n.target, ast.Name) and n.target.id == e.id \
+                    and isinstance(n.value, ast.Attribute) and n.value.attr in ("props", "_props"):
+                return True             # (props := self.props)
             if isinstance(n, ast.Assign) and any(isinstance(t, ast.Name) and t.id == e.id for t in n.targets):
                 v = n.value
                 if isinstance(v, ast.Attribute) and v.attr in ("props", "_props"):
